@@ -152,6 +152,25 @@ def wfArgs : Nodes → Bool
 end
 
 
+/-- `expr : assign_expr | postfix_expr`, `assign_expr : unary_expr (ASSIGN | ADD_ASSIGN) logical_expr` -/
+def parseExprStmt (f : Nat) (ts : List Tok) : Option (Node × List Tok) :=
+  match parseAt f 7 ts with
+  | some (lhs, .op .assign :: rest) =>
+    (match parseAt f 1 rest with
+     | some (rhs, r) => some (.bin .assign lhs rhs .unk, r)
+     | none => none)
+  | some (lhs, .op .addAssign :: rest) =>
+    (match parseAt f 1 rest with
+     | some (rhs, r) => some (.bin .addAssign lhs rhs .unk, r)
+     | none => none)
+  | some (e, rest) => some (e, rest)
+  | none => none
+
+/-- what the formatter writes for an assignment -/
+def toksAssign (op : Op) (l r : Node) : List Tok :=
+  parens (lhsNeedsParens op l) (toks l) ++ .op op :: parens (rhsNeedsParens op r) (toks r)
+
+
 /-- forget positions and types -/
 def eraseNode : Node → Node
   | .int i _ => .int i dp
